@@ -110,7 +110,9 @@ def main():
                         bad[int(m.group(1))].append(txt)
     compile_fail = None
     if c.returncode != 0 and not bad:
-        compile_fail = {"definition": "?", "observed": "cargo check failed without a located error", "stderr": c.stderr[-600:]}
+        # not a verdict about the generator: the scratch crate did not get as far as type-checking a generated module (dependency resolution, the tree's varlink crate itself, ...)
+        print(json.dumps({"found": False, "genaudit_infrastructure_failure": True, "stderr": c.stderr[-400:]}))
+        return
     if bad:
         i = sorted(bad)[0]
         compile_fail = {"definition": fam[i][0], "source": fam[i][1], "rustc_error": bad[i][0],
